@@ -17,8 +17,8 @@ func init() {
 		Level: "fault_enumeration",
 		Rule: "storage-corruption fault on reads of bytecode records: one run = one generated straight-line program using all twelve opcodes (random symbols, selectors, 1-3 byte integers) whose stored record is damaged in EVERY way of the catalogue - truncation at every byte, every byte replaced by each of {0x00, 0xff, b+1, b-1, 0x01, 0x05, 0x0c, 0x0d}, garbage appended - and then read by two consumers: the engine/VM (two requests drive it through every instruction) and an operator running the disassembler; " +
 			"an independent decoder classifies each damaged record as a sequence of complete valid instructions or as malformed at instruction i; non-trivial = the damage made the record malformed; distinct = distinct (malformation kind, instruction opcode) pairs per program",
-		Runs:       map[string]int{"quick": 600, "thorough": 20000},
-		MaxSeconds: map[string]int{"quick": 45, "thorough": 1200},
+		Runs:       map[string]int{"quick": 600, "thorough": 30000},
+		MaxSeconds: map[string]int{"quick": 45, "thorough": 900},
 		Run:        runC15,
 		Assumptions: []string{
 			"claimed only in the form a storage fault can express: damaged VALID programs reaching the VM and the disassembler through the store seam; 'all byte strings up to length n' and coverage-guided fuzzing are enumeration/fuzzing and are not done here",
